@@ -20,7 +20,7 @@ GTrees == UNION {VFAllTrees(n) : n \in 1..5}
            \cup { <<0, 1, 2, 3, 4, 3, 6>>, <<0, 1, 1, 2, 3, 4, 5>>, <<0, 1, 2, 3, 4, 5>> }
 
 (* model checking: small scope, exhaustive *)
-MTrees == { <<0, 1, 2, 2>>, <<0, 1, 2>>, <<0, 1, 1>> }
+MTrees == { <<0, 1, 2, 2>>, <<0, 1, 1>> }
 MLists == { L3, LDupAdj }
 MIds == {1, 2, 3, 8}
 MLists4 == { L4, LDupAdj, LMixed }
